@@ -415,7 +415,8 @@ pub fn parse_choice_text(input: &str) -> Result<ParsedChoiceText, CompilerError>
     if let Some((before, after)) = trimmed.split_once("[]") {
         let display = before.trim_end().to_owned();
         let raw_suffix = after.trim_start();
-        let had_space_before_inline_divert = split_inline_divert(raw_suffix)
+        // (the blank may be all there is between `[]` and the arrow)
+        let had_space_before_inline_divert = split_inline_divert(after)
             .and_then(|(text, _)| text.chars().last())
             .is_some_and(char::is_whitespace);
         let (suffix, inline_target) = split_inline_choice_divert(raw_suffix)?;
@@ -427,6 +428,9 @@ pub fn parse_choice_text(input: &str) -> Result<ParsedChoiceText, CompilerError>
         let (start_text, start_tags) = split_text_and_tags(&display)?;
         let selected = if suffix.is_empty() {
             Some(display.clone())
+        } else if suffix.trim().is_empty() {
+            // `text[] -> target`: the text keeps one trailing blank and joins the target's content
+            Some(format!("{display} "))
         } else if suffix.starts_with('#') && after.starts_with(char::is_whitespace) {
             // `text[] #tag`: the blank before the tag is part of the printed text
             Some(format!("{display} {suffix}"))
